@@ -27,12 +27,20 @@ RULE = ("exhaustive product {line1/line2: both, line1 only, line2 only, none} x 
         "StringIO} x {TLES: unset, three directories of three files whose newest (by ctime) is the lexicographically last / "
         "first / middle one, a pattern matching nothing, ''} x {PYORBITAL_CONFIG_PATH: unset, dir with platforms.txt, "
         "existing dir without (holding another file), non-existent dir} x {PPP_CONFIG_DIR: unset, set (holding its own "
-        "platforms.txt), set to a non-existent dir}; one fresh interpreter per registry combination (12 children; an import "
+        "platforms.txt), set to a non-existent dir}; one fresh interpreter per registry combination (an import "
         "of pyorbital.tlefile that fails there is a violation of 'the packaged file otherwise', not a harness error); every "
         "source serves the same satellite with a different element number, so the returned "
         "Tle names its origin; urlopen / urllib.request.urlopen / requests / socket.connect are interposed and counted; "
         "plus: a hard-link pair of equal ctime (ties), a TLES match whose newest file does not hold the platform (must fail "
-        "without a download); distinct = (lines, tle_file, TLES, config path, ppp)")
+        "without a download); further TLES values in the product (table TLES_MORE; 'matching' is what glob.glob gives, "
+        "checked with glob.glob when the files are made): patterns relative to the working directory, with ./, .. and // "
+        "components, directories holding hidden files newer than every matching file (*, *.txt, *tle*; patterns only hidden "
+        "files could match must fail without a download), ? and [..] and [!..] patterns, a pattern without wildcard, "
+        "wildcards in one and in two directory components (a hidden sub-directory being the newest), a pattern matching an "
+        "older directory besides the files; further PYORBITAL_CONFIG_PATH values (table CFG_SPECS): relative to the working "
+        "directory (plain, ./, trailing /, .., nested, '.' from inside the directory), absolute with trailing / and .., "
+        "relative directories without the file / not existing; PPP_CONFIG_DIR also as a relative path; 16 x 4 = 64 "
+        "children; distinct = (lines, tle_file, TLES, config path, ppp)")
 ASSUMPTIONS = ["strings are abstracted to the classes the code distinguishes: tle_file None / falsy / StringIO / str containing "
                "'ADMIN_MESSAGE' / other str; TLES unset / '' / a pattern with its glob result",
                "ctimes compared as the floats os.path.getctime returns (passed to the model as the order-preserving bit pattern)",
@@ -43,6 +51,10 @@ ASSUMPTIONS = ["strings are abstracted to the classes the code distinguishes: tl
                "which exception (KeyError, StopIteration for a truncated entry) is not judged",
                "a PYORBITAL_CONFIG_PATH naming a non-existent directory is the model's class 'set, no platforms.txt there'; "
                "PPP_CONFIG_DIR naming a non-existent directory is 'set'",
+               "a relative PYORBITAL_CONFIG_PATH / TLES value names the directory / pattern relative to the working directory of "
+               "the process at the time pyorbital is imported / the Tle is built (the children never change directory)",
+               "a TLES pattern that matches a directory is exercised only where the directory is older than the newest matching "
+               "file (what a newest matching directory should mean is left open by 'newest file')",
                "an exception (or interpreter exit) raised by `import pyorbital.tlefile` in a fresh interpreter is read as "
                "'no registry in this environment' (the registry is built at import)"]
 TRUSTED = ["model: PV.Model.Sources (hand-written from tlefile.py _read_tle, _get_uris_and_open_func, _get_config_path, "
@@ -318,6 +330,8 @@ def prepare(work):
             if newest != [os.path.normpath(want_path)] or len(full) < 2 and kind != "P_one":
                 raise RuntimeError("C16 harness: TLES kind %s: newest match %r, table says %r" % (kind, newest, want_path))
         spec["tles"][kind] = {"pattern": pat, "rel": rel, "expect": tag_at[want] if want else None, "spelled": pattern}
+    for info in spec["tles"].values():
+        info.setdefault("spelled", info["pattern"].replace(work, "{W}"))
     return spec
 
 
@@ -395,6 +409,8 @@ def child_main(spec_path):
     tlefile._get_uris_and_open_func = recording_guo
     tag_of = {tuple(v): k for k, v in spec["tags"].items()}
     L1, L2 = spec["tags"]["L"]
+    up_to_work = os.path.relpath(os.path.realpath(spec["work"]), os.path.realpath(os.getcwd()))
+    up_to_work = "" if up_to_work == "." else up_to_work
 
     def run_case(lines, tf_kind, tles_kind, tf_override=None):
         kw = {}
@@ -418,7 +434,10 @@ def child_main(spec_path):
         if tles_kind == "empty":
             os.environ["TLES"] = ""
         elif tles_kind != "unset":
-            os.environ["TLES"] = spec["tles"][tles_kind]["pattern"]
+            pat = spec["tles"][tles_kind]["pattern"]
+            if spec["tles"][tles_kind].get("rel") and up_to_work:
+                pat = os.path.join(up_to_work, pat)       # relative to THIS working directory
+            os.environ["TLES"] = pat
             globbed = [[p, fbits(os.path.getctime(p))] for p in _glob.glob(os.environ["TLES"])]
         rec.clear()
         net["n"] = 0
@@ -488,35 +507,48 @@ def observe(ctx):
         spec["lines_kinds"], spec["tf_kinds"], spec["tles_kinds"], spec["extras"] = LINES_KINDS, TF_KINDS, TLES_KINDS, EXTRAS
         spec_path = os.path.join(work, "spec.json")
         json.dump(spec, open(spec_path, "w"))
-        procs = []
+        jobs = []
         for cfg in CFG_KINDS:
             for ppp in PPP_KINDS:
                 env = dict(os.environ)
                 for k in ("TLES", "PYORBITAL_CONFIG_PATH", "PPP_CONFIG_DIR"):
                     env.pop(k, None)
-                if cfg != "unset":
-                    env["PYORBITAL_CONFIG_PATH"] = spec["cfg"][cfg]
-                if ppp:
+                cenv = spec["cfg_env"][cfg]
+                if cenv["value"] is not None:
+                    env["PYORBITAL_CONFIG_PATH"] = cenv["value"]
+                if ppp == "rel":
+                    env["PPP_CONFIG_DIR"] = os.path.join(os.path.relpath(work, cenv["cwd"]), "ppp") if cenv["cwd"] != work else "./ppp/"
+                elif ppp:
                     env["PPP_CONFIG_DIR"] = spec["cfg"]["ppp_nodir" if ppp == "nodir" else "ppp"]
                 env["PV_REPO"] = lib.REPO
-                p = subprocess.Popen([sys.executable, os.path.abspath(__file__), "--child", spec_path], env=env,
-                                     stdout=subprocess.PIPE, stderr=subprocess.PIPE, cwd=work)
-                procs.append((cfg, ppp, p))
+                jobs.append((cfg, ppp, env, cenv["cwd"]))
+
+        def run_child(job):
+            cfg, ppp, env, cwd = job
+            p = subprocess.run([sys.executable, os.path.abspath(__file__), "--child", spec_path], env=env,
+                               stdout=subprocess.PIPE, stderr=subprocess.PIPE, cwd=cwd, timeout=600)
+            return p.returncode, p.stdout, p.stderr
+
+        from concurrent.futures import ThreadPoolExecutor
+        with ThreadPoolExecutor(max_workers=max(2, min(12, (os.cpu_count() or 4) - 2))) as pool:
+            results = list(pool.map(run_child, jobs))
         obs = {"spec": spec, "children": []}
-        for cfg, ppp, p in procs:
-            so, se = p.communicate(timeout=300)
+        for (cfg, ppp, env, cwd), (returncode, so, se) in zip(jobs, results):
             so = so.decode(errors="replace")
-            if "@@C16@@" in so and p.returncode == 0:
+            if "@@C16@@" in so and returncode == 0:
                 data = json.loads(so.split("@@C16@@", 1)[1].strip().split("\n")[0])
             elif "@@C16-STAGE@@import\n" in so and "@@C16-STAGE@@imported" not in so:
                 # the interpreter itself went down while importing the code under test (exit, abort): same meaning as an
                 # exception there
                 tail = [l for l in se.decode(errors="replace").strip().split("\n") if l.strip()][-1:]
                 data = {"import_error": "interpreter exited with status %s during the import%s" % (
-                    p.returncode, (": " + tail[0][:300]) if tail else ""), "import_error_at": "", "cases": [], "extras": []}
+                    returncode, (": " + tail[0][:300]) if tail else ""), "import_error_at": "", "cases": [], "extras": []}
             else:
-                raise RuntimeError("child (%s, ppp=%s) failed rc=%s: %s" % (cfg, ppp, p.returncode, se.decode(errors="replace")[-800:]))
-            obs["children"].append({"cfg": cfg, "ppp": ppp, "data": data})
+                raise RuntimeError("child (%s, ppp=%s) failed rc=%s: %s" % (cfg, ppp, returncode, se.decode(errors="replace")[-800:]))
+            obs["children"].append({"cfg": cfg, "ppp": ppp, "data": data,
+                                    "env": {"PYORBITAL_CONFIG_PATH": spec["cfg_env"][cfg]["spelled"],
+                                            "PPP_CONFIG_DIR": (env.get("PPP_CONFIG_DIR") or "").replace(work, "{W}") or None,
+                                            "cwd": spec["cfg_env"][cfg]["cwd_spelled"]}})
         pkg_dirs = [c["data"]["pkg_config_dir"] for c in obs["children"] if "pkg_config_dir" in c["data"]]
         # (as tlefile.PKG_CONFIG_DIR is defined, should no child have been able to import the module)
         pkg_dir = pkg_dirs[0] if pkg_dirs else os.path.join(os.path.realpath(os.path.join(lib.REPO, "pyorbital")), "etc")
@@ -633,6 +665,11 @@ def expected(spec, case):
         return "skip", False
     if case["tles"] in ("A", "B", "C"):
         return {tagpath[p] for p in newest_by_statement(spec, case)}, False
+    if "expect" in spec["tles"].get(case["tles"], {}):
+        # relative / dotted / `..` spellings, hidden files, ?, [...], wildcard directories, a directory among the matches:
+        # the newest file that glob.glob finds for the pattern (verified by prepare()), or nothing
+        want = spec["tles"][case["tles"]]["expect"]
+        return ({want} if want else None), False
     if case["tles"] == "Tie":
         return {"TTie"}, False
     if case["tles"] in ("nothing", "W"):
@@ -645,7 +682,8 @@ def expected(spec, case):
 def judge(ctx, obs, ch, case):
     spec = obs["spec"]
     exp, net_ok = expected(spec, case)
-    key = {"lines": case["lines"], "tle_file": case["tf"], "TLES": case["tles"], "config_path": ch["cfg"], "ppp": ch["ppp"]}
+    key = {"lines": case["lines"], "tle_file": case["tf"], "TLES": case["tles"], "config_path": ch["cfg"], "ppp": ch["ppp"],
+           "spelled": dict(ch.get("env", {}), TLES=spec["tles"].get(case["tles"], {}).get("spelled"))}
     ctx.count("eval_oracle")
     ctx.distinct((case["lines"], case["tf"], case["tles"], ch["cfg"], ch["ppp"]))
     if exp == "skip":
@@ -673,17 +711,17 @@ def judge(ctx, obs, ch, case):
 
 
 def judge_registry(ctx, obs, ch):
-    want = "custom" if ch["cfg"] == "withfile" else "packaged"
+    want = "custom" if CFG_HOLDS[ch["cfg"]] else "packaged"
     got = registry_observed(obs, ch["data"])
     ctx.count("eval_oracle_registry")
     if got == "unavailable":
-        ctx.violation("registry_unavailable", {"config_path": ch["cfg"], "ppp": ch["ppp"]},
+        ctx.violation("registry_unavailable", {"config_path": ch["cfg"], "ppp": ch["ppp"], "spelled": ch.get("env")},
                       "in a fresh interpreter `import pyorbital.tlefile` fails with %s%s" % (
                           ch["data"]["import_error"], (" (" + ch["data"]["import_error_at"] + ")") if ch["data"].get("import_error_at") else ""),
                       "the %s registry" % want, site="get_platforms_filepath")
         return 1
     if got != want:
-        ctx.violation("wrong_registry", {"config_path": ch["cfg"], "ppp": ch["ppp"]},
+        ctx.violation("wrong_registry", {"config_path": ch["cfg"], "ppp": ch["ppp"], "spelled": ch.get("env")},
                       "%s (file %s)" % (got, ch["data"]["platforms_filepath"]), want, site="get_platforms_filepath")
         return 1
     return 0
@@ -716,7 +754,8 @@ def replay(ctx, case):
         if "lines" not in inp:
             if ch["cfg"] == inp.get("config_path") and ch["ppp"] == inp.get("ppp"):
                 rc |= judge_registry(ctx, obs, ch)
-                print("environment:", json.dumps({"PYORBITAL_CONFIG_PATH": ch["cfg"], "PPP_CONFIG_DIR": ch["ppp"]}))
+                print("environment:", json.dumps({"PYORBITAL_CONFIG_PATH": ch["cfg"], "PPP_CONFIG_DIR": ch["ppp"],
+                                                  "spelled": ch.get("env")}))
                 print("registry:", registry_observed(obs, ch["data"]),
                       ch["data"].get("platforms_filepath") or ch["data"].get("import_error"))
             continue
